@@ -170,36 +170,7 @@ func c06Globals(res *lib.Result, tier string, root *lib.Rng) error {
 	}
 	for wi := 0; wi < n; wi++ {
 		r := root.Fork(uint64(6000000 + wi))
-		ng := 1 + r.Intn(3)
-		var a, b []string
-		for g := 0; g < ng; g++ {
-			a = append(a, fmt.Sprintf("gv%d = %d", g, g))
-		}
-		a = append(a, "local total = 0")
-		for k := 0; k < 3+r.Intn(5); k++ {
-			g := r.Intn(ng)
-			switch r.Intn(6) {
-			case 0:
-				a = append(a, fmt.Sprintf("function bump%d()", k), fmt.Sprintf("  gv%d = gv%d + 1", g, g), "  total = total + 1", "end")
-			case 1:
-				a = append(a, "do", fmt.Sprintf("  gv%d = total", g), "end")
-			case 2:
-				a = append(a, fmt.Sprintf("gv%d = %d", g, 10+k))
-			case 3:
-				a = append(a, fmt.Sprintf("print(gv%d, total)", g))
-			case 4:
-				a = append(a, fmt.Sprintf("local function w%d(p)", k), fmt.Sprintf("  if p then gv%d = p end", g), fmt.Sprintf("  return gv%d", g), "end")
-			default:
-				a = append(a, fmt.Sprintf("total = total + gv%d", g))
-			}
-		}
-		for g := 0; g < ng; g++ {
-			if r.Chance(2, 3) {
-				b = append(b, fmt.Sprintf("print(gv%d)", g))
-			}
-		}
-		b = append(b, "print(1)")
-		files := map[string]string{"a.lua": strings.Join(a, "\n") + "\n", "b.lua": strings.Join(b, "\n") + "\n"}
+		files, ng := genGlobalWorld(r)
 		dir := lib.ScratchDir(fmt.Sprintf("c06g%d", wi))
 		if err := lib.WriteWorkspace(dir, files); err != nil {
 			return err
@@ -250,6 +221,41 @@ func c06Globals(res *lib.Result, tier string, root *lib.Rng) error {
 		os.RemoveAll(dir)
 	}
 	return nil
+}
+
+// genGlobalWorld: a.lua defines 1-3 globals at its top, re-assigns and reads them later (functions,
+// do-blocks, top level); b.lua reads them
+func genGlobalWorld(r *lib.Rng) (map[string]string, int) {
+	ng := 1 + r.Intn(3)
+	var a, b []string
+	for g := 0; g < ng; g++ {
+		a = append(a, fmt.Sprintf("gv%d = %d", g, g))
+	}
+	a = append(a, "local total = 0")
+	for k := 0; k < 3+r.Intn(5); k++ {
+		g := r.Intn(ng)
+		switch r.Intn(6) {
+		case 0:
+			a = append(a, fmt.Sprintf("function bump%d()", k), fmt.Sprintf("  gv%d = gv%d + 1", g, g), "  total = total + 1", "end")
+		case 1:
+			a = append(a, "do", fmt.Sprintf("  gv%d = total", g), "end")
+		case 2:
+			a = append(a, fmt.Sprintf("gv%d = %d", g, 10+k))
+		case 3:
+			a = append(a, fmt.Sprintf("print(gv%d, total)", g))
+		case 4:
+			a = append(a, fmt.Sprintf("local function w%d(p)", k), fmt.Sprintf("  if p then gv%d = p end", g), fmt.Sprintf("  return gv%d", g), "end")
+		default:
+			a = append(a, fmt.Sprintf("total = total + gv%d", g))
+		}
+	}
+	for g := 0; g < ng; g++ {
+		if r.Chance(2, 3) {
+			b = append(b, fmt.Sprintf("print(gv%d)", g))
+		}
+	}
+	b = append(b, "print(1)")
+	return map[string]string{"a.lua": strings.Join(a, "\n") + "\n", "b.lua": strings.Join(b, "\n") + "\n"}, ng
 }
 
 // traversalDiffers: some occurrence of that name is bound differently by LuaHelper's traversal and by Lua
